@@ -66,6 +66,9 @@ func main() {
 			os.Exit(2)
 		}
 		os.Exit(0)
+	case "--sibsweep":
+		sibSweep(repo)
+		return
 	case "--list":
 		type li struct {
 			ID, Explain, NotDecided, Technique string
@@ -248,4 +251,28 @@ func replay(repo, verifDir, path string) int {
 		fmt.Printf("replay: obligation (%s, %q) no longer exists in the current tree\n", rp.Rule, rp.Construct)
 	}
 	return 0
+}
+
+func sibSweep(repo string) {
+	p, err := Load(LoadOpts{Repo: repo, GOOS: "linux", GOARCH: "amd64"})
+	if err != nil {
+		fmt.Println(err)
+		return
+	}
+	groups := sibGroups(p, sibScopeAll)
+	keys := sortedKeys(groups)
+	ng, nd := 0, 0
+	for _, k := range keys {
+		ms := groups[k]
+		major, dev := sibDeviants(ms)
+		if len(ms) >= 3 {
+			ng++
+		}
+		for _, d := range dev {
+			nd++
+			a, b := skelDiff(major, d.skel)
+			fmt.Printf("DEV %s :: %s (group of %d)\n    majority has %v\n    deviant has  %v\n", k, fnName(d.fn), len(ms), a, b)
+		}
+	}
+	fmt.Printf("groups>=3: %d deviants: %d\n", ng, nd)
 }
